@@ -9,6 +9,7 @@ package httpserver
 import (
 	"bytes"
 	"fmt"
+	"hash/fnv"
 	"math/rand"
 	"sort"
 	"strings"
@@ -279,6 +280,7 @@ func c03Gen(cfg *e2eCfg, rng *rand.Rand, id string, last bool) *c03Ex {
 	if rng.Intn(5) == 0 {
 		sadd("X-Empty-R", "")
 	}
+	c03OverlapHeaders(id, sh, sadd)
 	sc.Mode = "cl"
 	if sc.Status != 204 {
 		ex.RespPlain = c03Body(rng, c03Sizes(cfg, rng), rng.Intn(3) != 0, id+"/resp")
@@ -295,6 +297,97 @@ func c03Gen(cfg *e2eCfg, rng *rand.Rand, id string, last bool) *c03Ex {
 	sc.Headers = sh
 	ex.RespBody = e2eBrief(sc.Body)
 	return ex
+}
+
+// c03OverlapHeaders adds end-to-end response headers of the kind the gateway's own response
+// transformations (proxy compression, ResponseAdaptor compress / decompress / body, the
+// streamed write-out) write or live next to: Vary in every wire shape (one value, a list
+// on one line, several lines, a value the gateway would add itself, lower case, *),
+// repeated Cache-Control lines, validators and representation metadata.  They are the
+// backend's, so they must reach the client whatever the gateway does to the body.  The
+// draws come from a generator of their own (a pure function of the exchange id, hence of
+// seed and case), so that the rest of the exchange is what it was without them.
+func c03OverlapHeaders(id string, have [][2]string, sadd func(k, v string)) {
+	h := fnv.New64a()
+	h.Write([]byte("c03-overlap-headers/" + id))
+	rng := rand.New(rand.NewSource(int64(h.Sum64())))
+	switch rng.Intn(10) {
+	case 0, 1:
+		sadd("Vary", []string{"Origin", "Accept-Language", "Cookie", "X-Tenant"}[rng.Intn(4)])
+	case 2:
+		sadd("Vary", "Origin, Accept-Language")
+	case 3:
+		sadd("Vary", "Origin")
+		sadd("Vary", "Accept-Language")
+	case 4:
+		sadd("Vary", "Accept-Encoding")
+		sadd("Vary", "origin,x-tenant")
+		sadd("Vary", "Cookie")
+	case 5:
+		sadd("Vary", []string{"Accept-Encoding", "Content-Encoding", "accept-encoding, Origin", "*"}[rng.Intn(4)])
+	}
+	if rng.Intn(3) == 0 {
+		sadd("Cache-Control", []string{"private", "must-revalidate", "public, s-maxage=30"}[rng.Intn(3)])
+		if rng.Intn(2) == 0 {
+			sadd("Cache-Control", "stale-while-revalidate=5")
+		}
+	}
+	if len(e2eValues(have, "ETag")) == 0 && rng.Intn(4) == 0 {
+		sadd("ETag", `W/"weak-77"`)
+	}
+	if rng.Intn(4) == 0 {
+		sadd("Last-Modified", "Wed, 21 Oct 2015 07:28:00 GMT")
+	}
+	if rng.Intn(5) == 0 {
+		sadd("Content-Language", "en, de")
+	}
+	if rng.Intn(5) == 0 {
+		sadd("Accept-Ranges", "bytes")
+	}
+	if rng.Intn(5) == 0 {
+		sadd("Link", `</a.css>; rel=preload`)
+		sadd("Link", `</b.js>; rel=preload, </c>; rel="next"`)
+	}
+	if rng.Intn(6) == 0 {
+		sadd("Content-Disposition", `attachment; filename="r.bin"`)
+	}
+	if rng.Intn(6) == 0 {
+		sadd("Expires", "Thu, 01 Dec 1994 16:00:00 GMT")
+		sadd("Age", "12")
+	}
+}
+
+// c03RespTx names what became of the Content-Encoding label of the response, as observed
+// on the two sides (the backend's label against the label the client got).  Several
+// transformations can hide behind one name: a kept label may be a response the gateway's
+// transport un-gzipped and the proxy compressed again, or one the proxy compressed and a
+// ResponseAdaptor decompressed.
+func c03RespTx(ex *c03Ex, resp *e2eResp) string {
+	ce := strings.Join(e2eValues(resp.Headers, "Content-Encoding"), ",")
+	switch {
+	case ce == "gzip" && !ex.RespGzip:
+		return "label-none-to-gzip"
+	case ce == "" && ex.RespGzip:
+		return "label-gzip-to-none"
+	case ce == "gzip" && ex.RespGzip:
+		return "label-gzip-kept"
+	case ce == "":
+		return "label-none-kept"
+	}
+	return "label-other"
+}
+
+// c03VaryLost returns the field values (list members, compared case-insensitively) of the
+// backend's Vary lines that no Vary line of the client's response carries.  The gateway
+// may add members (Content-Encoding when it compresses), split or join lines.
+func c03VaryLost(want, got []string) []string {
+	var lost []string
+	for _, t := range e2eTokens(want) {
+		if !e2eHasToken(got, t) {
+			lost = append(lost, t)
+		}
+	}
+	return lost
 }
 
 // c03Unescape decodes %XX (nothing else).
@@ -637,7 +730,14 @@ func c03Check(cfg *e2eCfg, ex *c03Ex, res *e2eResult, seen *e2eSeen) (out []c03F
 	} else if complete && seen != nil {
 		for _, n := range c03ScriptNames(ex.Script.Headers) {
 			switch n {
-			case "Content-Length", "Content-Encoding", "Vary", "Connection", "Date":
+			case "Content-Length", "Content-Encoding", "Connection", "Date":
+				continue
+			case "Vary":
+				// the gateway may add to it; what the backend named must still be named
+				want, got := e2eValues(ex.Script.Headers, n), e2eValues(resp.Headers, n)
+				if lost := c03VaryLost(want, got); len(lost) > 0 {
+					bad("resp-vary-values-lost:"+c03RespTx(ex, resp), respTrig, map[string]interface{}{"header": n, "want": want, "got": got, "lost": lost})
+				}
 				continue
 			}
 			want, got := e2eValues(ex.Script.Headers, n), e2eValues(resp.Headers, n)
@@ -808,6 +908,43 @@ func c03Observe(r *kit.Run, cfg *e2eCfg, ex *c03Ex, res *e2eResult, seen *e2eSee
 		if len(e2eValues(ex.Script.Headers, "Set-Cookie")) > 1 {
 			r.Count("repeated_response_header", 1)
 		}
+		if len(e2eValues(ex.Script.Headers, "Cache-Control")) > 1 {
+			r.Count("repeated_cache_control_relayed", 1)
+		}
+		if vary := e2eValues(ex.Script.Headers, "Vary"); len(vary) > 0 {
+			// the backend's own Vary against each thing the gateway does to a response
+			several := len(e2eTokens(vary)) > 1
+			adCompress := cfg.RespAd != nil && cfg.RespAd.Compress
+			switch c03RespTx(ex, res.Resp) {
+			case "label-none-to-gzip":
+				if cfg.Compression != nil && !adCompress {
+					r.Count("backend_vary_under_proxy_compression", 1)
+					if several {
+						r.Count("backend_vary_list_under_proxy_compression", 1)
+					}
+					if len(vary) > 1 {
+						r.Count("backend_vary_lines_under_proxy_compression", 1)
+					}
+				}
+				if cfg.Compression == nil && adCompress {
+					r.Count("backend_vary_under_adaptor_compress", 1)
+				}
+			case "label-gzip-to-none":
+				if res.Resp.Framing != "none" {
+					r.Count("backend_vary_under_decompression", 1)
+				}
+			case "label-gzip-kept":
+				r.Count("backend_vary_on_gzip_passed_through", 1)
+			default:
+				r.Count("backend_vary_on_identity_response", 1)
+			}
+			if (cfg.ProxyServerMax < 0 || cfg.PoolServerMax < 0) && res.Resp.Framing != "none" {
+				r.Count("backend_vary_on_streamed_response", 1)
+			}
+			if cfg.RespAd != nil && cfg.RespAd.Body != "" {
+				r.Count("backend_vary_under_adaptor_body", 1)
+			}
+		}
 	}
 	if res.Reused {
 		r.Count("on_reused_connection", 1)
@@ -823,14 +960,15 @@ func c03Observe(r *kit.Run, cfg *e2eCfg, ex *c03Ex, res *e2eResult, seen *e2eSee
 	}
 }
 
-const c03Rule = "seeded gateway configurations (IP / host-name / keepHost server; proxy compression none or minLength 0/64/1024; RequestAdaptor and ResponseAdaptor none/body/compress/decompress/body+compress; buffered or streamed (-1) request and response bodies) x hand-built HTTP/1.1 requests on raw sockets (10 methods; 26 paths with %2F %3F %23 %20 %25 + unicode dot-segments sub-delims; 16 query shapes; repeated, empty, lower-case end-to-end headers; the eight fixed hop-by-hop headers; Connection lists naming present, absent, repeated and otherwise end-to-end headers, split over two lines; bodies 0..1MiB around minLength, length-declared or chunked with chunk sizes 1..70000, gzip-labelled or plain; keep-alive reuse of the client connection) x scripted backend responses (13 statuses, repeated/empty headers, bodies around minLength, length-declared or chunked, gzip-labelled or plain). distinct = (method, path escape class, query, Connection tokens, hop headers, request framing/encoding/size class, request adaptor, response status class/mode/encoding/size class, response adaptor, compression relation, host rule, stream modes)"
+const c03Rule = "seeded gateway configurations (IP / host-name / keepHost server; proxy compression none or minLength 0/64/1024; RequestAdaptor and ResponseAdaptor none/body/compress/decompress/body+compress; buffered or streamed (-1) request and response bodies) x hand-built HTTP/1.1 requests on raw sockets (10 methods; 26 paths with %2F %3F %23 %20 %25 + unicode dot-segments sub-delims; 16 query shapes; repeated, empty, lower-case end-to-end headers; the eight fixed hop-by-hop headers; Connection lists naming present, absent, repeated and otherwise end-to-end headers, split over two lines; bodies 0..1MiB around minLength, length-declared or chunked with chunk sizes 1..70000, gzip-labelled or plain; keep-alive reuse of the client connection) x scripted backend responses (13 statuses, repeated/empty headers, bodies around minLength, length-declared or chunked, gzip-labelled or plain; in 6 of 10 responses a Vary header of the backend's own: one value, a list on one line, two or three lines, lower case, Accept-Encoding / Content-Encoding themselves, *; repeated Cache-Control lines, weak ETag, Last-Modified, Content-Language, Accept-Ranges, repeated Link, Content-Disposition, Expires, Age - the headers that live next to the ones the gateway's compression / decompression / body replacement rewrite; every member of the backend's Vary must still be named in the client's Vary whatever the gateway did to the body, the others are compared as multisets of lines). distinct = (method, path escape class, query, Connection tokens, hop headers, request framing/encoding/size class, request adaptor, response status class/mode/encoding/size class, response adaptor, compression relation, host rule, stream modes)"
 
 var c03Assumptions = []string{
 	"path equality is decided on the percent-decoded path (re-encoding of %2F or %41 alone is not flagged); the raw query must be byte-identical",
 	"no Expect: 100-continue, trailers, Upgrade flows, absolute-form targets, CONNECT, raw non-ASCII targets; backend responses carry no hop-by-hop headers",
 	"headers the gateway adds on its own behalf (User-Agent, Accept-Encoding, X-Forwarded-For, tracing) are allowed extras; header order and casing are not compared; repeated values are compared as multisets",
 	"a zero-length body labelled Content-Encoding: gzip decodes to the empty body",
-	"Content-Length / Content-Encoding / Vary / Date / Connection response headers are the gateway's to rewrite and are checked only through framing and decoded content",
+	"Content-Length / Content-Encoding / Date / Connection response headers are the gateway's to rewrite and are checked only through framing and decoded content",
+	"Vary is the backend's end-to-end header that the gateway may extend (Content-Encoding when it compresses): every list member of the backend's Vary lines must be a member (case-insensitive) of the client's Vary lines; added members, joined or split lines and their order are not decided",
 }
 
 // TestVerif_C03_Exchange: sequential exchanges, several per gateway configuration, on a
@@ -924,7 +1062,10 @@ func c03Requires(r *kit.Run) {
 		"connection_listed_header_sent", "fixed_hop_header_sent", "repeated_request_header", "with_query", "escaped_path",
 		"req_chunked", "req_declared", "client_framing_cl", "client_framing_chunked", "client_framing_none",
 		"gateway_compressed_response", "gateway_decompressed_response", "gzip_response_passed_through", "respadaptor_body_replaced",
-		"repeated_response_header", "on_reused_connection", "reqadaptor_body", "reqadaptor_compress", "reqadaptor_decompress",
+		"repeated_response_header", "repeated_cache_control_relayed", "backend_vary_under_proxy_compression", "backend_vary_list_under_proxy_compression",
+		"backend_vary_lines_under_proxy_compression", "backend_vary_under_adaptor_compress", "backend_vary_under_decompression",
+		"backend_vary_on_gzip_passed_through", "backend_vary_on_identity_response", "backend_vary_on_streamed_response", "backend_vary_under_adaptor_body",
+		"on_reused_connection", "reqadaptor_body", "reqadaptor_compress", "reqadaptor_decompress",
 		"request_streamed", "response_streamed"} {
 		r.Require(k, 1)
 	}
